@@ -124,6 +124,8 @@ def _run(sc):
         ca = cas[o["node"]][o["ca"] - 1]
         if o["op"] == "start":
             sim.api(n, "start", lambda: ca.start(o["delay"] / 1e6), ca=o["ca"], delay=o["delay"])
+        elif o["op"] == "stop":
+            sim.api(n, "stop", lambda: ca.stop(), ca=o["ca"])
         elif o["op"] == "send_pgn":
             sim.api(n, "ca_send_pgn", lambda: ca.send_pgn(o["dp"], o["pf"], o["ps"], o["prio"], list(o["data"])),
                     ca=o["ca"], dp=o["dp"], pf=o["pf"], ps=o["ps"], prio=o["prio"], data=list(o["data"]))
